@@ -18,6 +18,7 @@ REGISTRY = {
     "C03": ("auverif.props.c03", "run_c03"),
     "C04": ("auverif.props.c03", "run_c04"),
     "C12": ("auverif.props.c12", "run"),
+    "C01": ("auverif.props.c01", "run"),
     "C02": ("auverif.props.c02", "run"),
     "C13": ("auverif.props.c13", "run"),
     "C08": ("auverif.props.c08", "run"),
